@@ -32,8 +32,8 @@ META = {
             "x case-insensitivity) and emits the predicted visible set; each repository is built on disk, the git binary "
             "must agree with the specification (self-test of the oracle), and `rg --files --hidden` must list exactly the "
             "predicted files with the parallel and with the serial walker; the same holds for searches that START BELOW "
-            "the ignore files (cwd in a sub-directory, a sub-directory named as `d`, `./d`, absolute, `.` or `../d`, several "
-            "roots at once), where the repository's files act as parent-directory ignore files.",
+            "the ignore files (cwd in a sub-directory, a sub-directory named as `d`, `./d`, absolute, `.` or `../d`, through a symbolic "
+            "link outside the repository, several roots at once), where the repository's files act as parent-directory ignore files.",
     "note": "Oracle = TLA+ spec validated against git 2.39 on every generated repository (git -c core.ignoreCase=true for "
             "the case-insensitive scenarios). Class members are lower case only (git folds ranges but not single class "
             "members under ignoreCase). `.gitignore` files themselves take part in the comparison; `.git/` is filtered out.",
